@@ -4,6 +4,7 @@ import (
 	"bytes"
 	"fmt"
 	"math/big"
+	"path/filepath"
 	"strings"
 	"time"
 
@@ -30,7 +31,7 @@ func init() {
 	}, Run: runC08})
 }
 
-var c08Outcomes = []string{"success", oDown, oHTTP500, oTrunc, oGarbage, "badsig", "unknownsigner", oReset, oEmpty, "osfault", "stfault", oWrongDoc, "critext", "storefault", "storefault"}
+var c08Outcomes = []string{"success", oDown, oHTTP500, oTrunc, oGarbage, "badsig", "unknownsigner", oReset, oEmpty, "osfault", "stfault", oWrongDoc, "critext", "storefault", "storefault", "movein-fault"}
 
 type c08op struct {
 	kind   string // "lookup" | "refresh"
@@ -162,6 +163,27 @@ func runC08(h *Harness) {
 				return nil
 			}
 			target = next // the fault may or may not hit a step that matters
+		case "movein-fault":
+			// (disk) every attempt of this round to move a staged database into place fails; moving the previous
+			// database back works: the refresh fails at its very last step and the previous list stays in force
+			if backend == "disk" {
+				aside := map[string]bool{}
+				h.Disk.OsFault = func(nn int, op string, paths []string, node string) error {
+					if op != "rename" || len(paths) != 2 {
+						return nil
+					}
+					src, dst := isTmpName(filepath.Base(paths[0])), isTmpName(filepath.Base(paths[1]))
+					switch {
+					case !src && dst:
+						aside[paths[1]] = true
+					case src && !dst && !aside[paths[0]]:
+						return ErrIO
+					}
+					return nil
+				}
+			} else {
+				target = next
+			}
 		case "storefault":
 			// one store method of the STAGING store fails once (a transient error) at a chosen step; the refresh may fail
 			// (previous list kept) or, if the failing call is retried or harmless, succeed — never a partial list
